@@ -26,6 +26,8 @@ def run(ctx, run):
     _strict(ctx, run, take)
     _handle_read(ctx, run, P.need("vbi_proxy_msg_handle_read", "src/proxy-msg.c"))
     _schedule_candidates(ctx, run, P.need("vbi_proxyd_channel_schedule", "daemon/proxyd.c"))
+    _owner_states(ctx, run, P.need("vbi_proxyd_get_token_owner", "daemon/proxyd.c"))
+    _idle_means_nothing_received(ctx, run, P.need("vbi_proxy_msg_is_idle", "src/proxy-msg.c"))
     _partial_read_asserts(ctx, run)
     _token_states(ctx, run)
     _grant_site(ctx, run, P.need("vbi_proxyd_token_grant", UNIT))
@@ -594,3 +596,53 @@ def _schedule_candidates(ctx, run, f):
         else:
             run.holds("RF-DOM", key, "selection dominated by same device, valid request, background priority", ex.loc(f, i))
     run.floor("scheduler selection sites", n, 5)
+
+
+def _owner_states(ctx, run, f):
+    P = ctx.prog
+    run.touch(f)
+    states = {k: v for k, v in P.enum_consts.items() if k.startswith("REQ_TOKEN_")}
+    if len(states) < 5:
+        raise AnalysisBroken("token state enumerators not found")
+    none = states["REQ_TOKEN_NONE"]
+    store = None
+    for bid, i in flow.all_events(f):
+        e = f.exprs[i]
+        if e["k"] == "asg" and e["op"] == "=" and f.exprs[ex.skip(f, e["c"][0])].get("name") == "p_owner" and not ex.is_null(f, e["c"][1]):
+            store = (bid, i)
+    if store is None:
+        raise AnalysisBroken("vbi_proxyd_get_token_owner: the owner assignment was not found")
+    bid, i = store
+    vals = set()
+    for sb, b in f.blocks.items():
+        t = b.term
+        if t and t.get("kind") == "SwitchStmt" and "token_state" in ex.pretty(f, t["cond"]):
+            for succ, lab in f.edges(sb):
+                if isinstance(lab, tuple) and bid in flow.reach_from(f, succ, avoid=(sb,)):
+                    vals.update(range(lab[1], lab[2] + 1))
+    want = set(states.values()) - {none}
+    key = "RF-TAB:vbi_proxyd_get_token_owner:owner-states"
+    if vals == want:
+        run.holds("RF-TAB", key, "a client is the token owner in every state but NONE (%d states)" % len(vals), ex.loc(f, i))
+    else:
+        names = {v: k for k, v in states.items()}
+        run.violation("RF-TAB", key, "the token owner is recognised in states %s; missing %s, unexpected %s: a holder in a missing state "
+                      "is invisible, the token is granted again and two clients control the channel"
+                      % (sorted(names.get(v, v) for v in vals), sorted(names.get(v, v) for v in want - vals),
+                         sorted(names.get(v, v) for v in vals - want)), ex.loc(f, i))
+
+
+def _idle_means_nothing_received(ctx, run, f):
+    run.touch(f)
+    flds = set()
+    for bid, i in flow.all_events(f):
+        e = f.exprs[i]
+        if e["k"] == "ret" and e.get("c"):
+            flds |= {x.split(".")[-1] for x in atoms.Operand(f, e["c"][0]).fields}
+    key = "RF-DEP:vbi_proxy_msg_is_idle:reads-readOff"
+    if "readOff" in flds and "writeLen" in flds:
+        run.holds("RF-DEP", key, "idle = nothing being written and no byte of a message received yet (readOff)", "%s:%d" % (f.file, f.line))
+    else:
+        run.violation("RF-DEP", key, "vbi_proxy_msg_is_idle decides on %s: readLen is only set once the whole 8 byte header has "
+                      "arrived, so a connection holding 1 ... 7 header bytes counts as idle and the next write to it trips "
+                      "vbi_proxy_msg_write's assertion - the daemon aborts" % sorted(flds), "%s:%d" % (f.file, f.line))
